@@ -106,6 +106,14 @@ def _run(ctx, w):
     ctx.floor("D7", 500, "scroll primitive evaluations")
     from rules import c13
     c13.config_plumbing(ctx, w, S, R, "D8")
+    # what is not handed out must still be visible in lines(): the accessor shows the whole line vector, whatever the limit
+    from rules import hinterp
+    ctx.rule("D9", "Vt::lines() returns the whole line vector of the active buffer (nothing hidden, whatever the limit) and Vt::view() its last `rows` lines")
+    try:
+        okA, infoA = hinterp.accessor_semantics(w, S, R)
+        ctx.check(okA, "D9", "accessors", str(infoA), loc=w.fn_loc("vt::Vt::lines"), sample={"cases": infoA})
+    except Exception as ex:
+        ctx.violation("D9", "accessors", "cannot evaluate the lines()/view() accessors: %r" % (ex,), loc=w.fn_loc("vt::Vt::lines"))
     stream_rules(ctx, w, S, R, T)
 
 
